@@ -8,3 +8,6 @@ const Available = false
 func install(x *Exec) { panic("sched: this binary was built without the scheduler overlay") }
 
 func uninstall() {}
+
+// NoteStream is a no-op without the overlay.
+func NoteStream(interface{}) {}
